@@ -288,6 +288,9 @@ Fixpoint disc (kinds : list rkind) (ops : list hop) : bool :=
   end.
 Definition disciplined (ops : list hop) : bool := disc [] ops.
 
+(* a caller write into an array it received from a read *)
+Definition writes_result (o : hop) : bool := match o with HWrite (HRes _) _ => true | _ => false end.
+
 (* ------------------------------------------------------------------ case files *)
 
 Definition hview_eqb (a b : hview) : bool :=
